@@ -130,7 +130,30 @@ impl Validator {
                     kind: LinkerErrorType::MissingDependency,
                 }) {
                     Ok(mut tld) => {
-                        if let Err(mut e) = tld.link_constraint_reference(&self.tlds) {
+                        // Within a parameterized type, its dummy references hide the
+                        // definitions of the module that are spelled the same
+                        let hidden: Vec<&String> = match &tld {
+                            ToplevelDefinition::Type(ToplevelTypeDefinition {
+                                parameterization: Some(p),
+                                ..
+                            }) => p
+                                .parameters
+                                .iter()
+                                .map(|a| &a.dummy_reference)
+                                .filter(|d| self.tlds.contains_key(*d))
+                                .collect(),
+                            _ => vec![],
+                        };
+                        let linked = if hidden.is_empty() {
+                            tld.link_constraint_reference(&self.tlds)
+                        } else {
+                            let mut scope = self.tlds.clone();
+                            hidden.into_iter().for_each(|d| {
+                                scope.remove(d);
+                            });
+                            tld.link_constraint_reference(&scope)
+                        };
+                        if let Err(mut e) = linked {
                             e.contextualize(&key);
                             warnings.push(e.into());
                         }
